@@ -132,6 +132,9 @@ func (e *env) scan(when string) {
 	})
 }
 
+func (e *env) heldNow() []chan string { e.mu.Lock(); defer e.mu.Unlock(); return append([]chan string(nil), e.held...) }
+func (e *env) modeNow() string       { e.mu.Lock(); defer e.mu.Unlock(); return e.mode }
+
 func (e *env) setMode(m string) {
 	e.mu.Lock()
 	if e.mode == m {
@@ -207,6 +210,20 @@ func timeline(t *testing.T, r *rand.Rand, dir string, steps int) ([]Event, []str
 					}
 					e.log(Event{"ev": "write", "gen": int(d.WriteGen() - gen0 + 1), "sha": sum(file())})
 				}
+			case k < 36 && !cancelled && len(e.heldNow()) == 0 && e.modeNow() != "hold":
+				// a write that fails (the state directory is gone for a moment): nothing was saved
+				gb, fb := d.WriteGen(), sum(file())
+				os.Rename(dir, dir+".away")
+				_, perr := d.Put(su, "k9", []byte(fmt.Sprintf("never saved %d", i)))
+				os.Rename(dir+".away", dir)
+				if perr == nil {
+					t.Fatal("the fault injection did not make the put fail")
+				}
+				moved := "f"
+				if d.WriteGen() != gb || sum(file()) != fb {
+					moved = "t" // a write that reported failure changed the file or the write generation
+				}
+				e.log(Event{"ev": "writefail", "moved": moved})
 			case k < 75:
 				ms := []int64{1000, 10000, 30000, 59999, 60000, 60001, 120000, 300000, 600000}[r.Intn(9)]
 				target := e.t() + ms
